@@ -21,7 +21,8 @@ pub async fn step_grp(h: &mut Harness, op: &Op) {
         Op::JoinGroup { c, stream, topic, group } => join_group(h, *c, stream, topic, group).await,
         Op::LeaveGroup { c, stream, topic, group } => leave_group(h, *c, stream, topic, group).await,
         Op::GetGroups { c, stream, topic } => {
-            if ready(h, *c) {
+            // listings are judged through the administrator's connection only (see audits)
+            if ready(h, *c) && h.model.sessions[*c].user == 1 {
                 if let Some((sid, tid)) = h.model.topic_ids(stream, topic) {
                     check_groups_of_topic(h, *c, sid, tid).await;
                 }
@@ -30,6 +31,9 @@ pub async fn step_grp(h: &mut Harness, op: &Op) {
         Op::GetGroup { c, stream, topic, group } => {
             if ready(h, *c) {
                 let result = h.clients[*c].as_ref().unwrap().get_consumer_group(&stream.to_identifier(), &topic.to_identifier(), &group.to_identifier()).await;
+                if !h.perm_gate_found("get_consumer_group", matches!(result, Ok(Some(_))), result.is_ok(), result.as_ref().err()) {
+                    return;
+                }
                 let exists = h.model.topic(stream, topic).and_then(|t| Model::group_id(t, group)).is_some();
                 match (result, exists) {
                     (Ok(Some(_)), true) | (Ok(None), false) | (Err(_), false) => {}
